@@ -42,6 +42,7 @@ ModelStep(r) ==
       [] r.ev = "Poll" -> Poll(r.args.c)
       [] r.ev = "Release" -> Release(r.args.c) \/ ReleaseClose(r.args.c)
       [] r.ev = "Disconnect" -> Disconnect(r.args.c)
+      [] r.ev = "Reopen" -> Reopen(r.args.c)
       [] OTHER -> TRUE
 
 TraceInit == /\ tid \in 1..Len(Traces) /\ l = 1 /\ Init /\ bad = {} /\ drift = FALSE
